@@ -23,6 +23,7 @@ import (
 
 	"verif/props/core"
 	"verif/props/proto"
+	"verif/shim/vctx"
 	"verif/shim/vtime"
 	"verif/simnet"
 	"verif/vsched"
@@ -42,6 +43,9 @@ type AScn struct {
 	ErrKind  int    `json:"err_kind"`     // 0 plain error, 1 a net.Error whose Timeout() is true, 2 a wrapped context.DeadlineExceeded
 	Stagger  bool   `json:"stagger"`      // the end-to-end probes are launched far apart (runs complete in between) instead of almost at once
 	Bound    int    `json:"bound"`
+	// the caller's context is cancelled at this virtual instant while the scripted runs (like the UDP and TCP engines once
+	// they are reading) carry on and succeed: the request is then an error without a result, or a success with exact counts
+	CancelAtMs int `json:"cancel_at_ms,omitempty"`
 }
 
 type fetcher struct{ mode string }
@@ -115,7 +119,13 @@ func runA(sc *AScn, prefix []int, sig []uint32) (*vsched.Exec, *aObs) {
 	defer traceroute.VerifSetRunOnce(nil)
 	tr := traceroute.VerifNewTraceroute(&fetcher{sc.PublicIP})
 	x := vsched.Run(vsched.Config{Prefix: prefix, PrefixSig: sig, MaxVirtual: time.Hour}, nil, func() {
-		o.res, o.err = tr.RunTraceroute(context.Background(), traceroute.TracerouteParams{Hostname: "203.0.113.9", Protocol: "udp", MinTTL: 1, MaxTTL: 5, Delay: 1,
+		ctx := context.Background()
+		if sc.CancelAtMs != 0 {
+			var cancel context.CancelFunc
+			ctx, cancel = vctx.WithCancelAt(ctx, int64(sc.CancelAtMs)*1_000_000)
+			defer cancel()
+		}
+		o.res, o.err = tr.RunTraceroute(ctx, traceroute.TracerouteParams{Hostname: "203.0.113.9", Protocol: "udp", MinTTL: 1, MaxTTL: 5, Delay: 1,
 			Timeout: map[bool]time.Duration{false: time.Millisecond, true: 100 * time.Millisecond}[sc.Stagger], TracerouteQueries: sc.Queries, E2eQueries: sc.E2e, CollectSourcePublicIP: sc.PublicIP != "", ReverseDns: sc.RDNS})
 	})
 	return x, o
@@ -131,6 +141,9 @@ func checkA(sc *AScn, x *vsched.Exec, o *aObs) (string, string) {
 		return "horizon", ""
 	}
 	n := sc.Queries + sc.E2e
+	if sc.CancelAtMs != 0 && o.err != nil && o.res == nil {
+		return "", ""
+	}
 	if o.calls != n {
 		return "call-count", fmt.Sprintf("%d runs/probes started, %d requested", o.calls, n)
 	}
@@ -264,15 +277,45 @@ func blocks(tier string) []block {
 	return bs
 }
 
+// cancelA: the caller goes away before, between and after the paced launches of the end-to-end probes (pacing is
+// MaxTTL*Timeout/E2e = 500ms/E2e with Stagger) and while the runs are still completing.
+func cancelA(tier string) []*AScn {
+	var out []*AScn
+	for _, qe := range [][2]int{{0, 2}, {1, 2}, {0, 3}, {2, 3}} {
+		if tier != "thorough" && qe[0]+qe[1] > 3 {
+			continue
+		}
+		n := qe[0] + qe[1]
+		for _, at := range []int{-1, 1, 60, 170, 251, 340, 420, 600} {
+			for _, rev := range []bool{false, true} {
+				sc := &AScn{Queries: qe[0], E2e: qe[1], Bound: 1, Stagger: true, CancelAtMs: at}
+				sc.Rank = permAt(n, 0)
+				if rev {
+					sc.Rank = permAt(n, fact(n)-1)
+				}
+				out = append(out, sc)
+			}
+		}
+	}
+	return out
+}
+
 func countA(tier string) int {
 	t := 0
 	for _, b := range blocks(tier) {
 		t += b.count
 	}
-	return t
+	return t + len(cancelA(tier))
 }
 
 func atA(tier string, idx int) *AScn {
+	n0 := 0
+	for _, b := range blocks(tier) {
+		n0 += b.count
+	}
+	if idx >= n0 {
+		return cancelA(tier)[idx-n0]
+	}
 	for _, b := range blocks(tier) {
 		if idx >= b.count {
 			idx -= b.count
